@@ -1412,6 +1412,67 @@ func (e *c20Env) glue() map[string]bool {
 	}
 	res["a panic in the wrapped publisher's Close escapes transform + delay + metrics decorators"] = escapes(func() { stackPub().Close() })
 	res["a panic in the wrapped publisher's Publish escapes transform + delay + metrics decorators with its value"] = escapes(func() { stackPub().Publish("t", message.NewMessage("u", nil)) })
+	// NewRouterMiddleware cannot return an error: a registry that refuses the collector makes it panic
+	res["registration failure makes NewRouterMiddleware panic (it has no error result)"] = panics(func() {
+		metrics.NewPrometheusMetricsBuilder(c20BadRegisterer{}, "", "").NewRouterMiddleware()
+	})
+	// PublishBuckets / HandlerBuckets reach the histograms; nil HandlerBuckets = the 11 sub-second defaults
+	bounds := func(reg *prometheus.Registry, family string) []float64 {
+		mfs, _ := reg.Gather()
+		for _, mf := range mfs {
+			if mf.GetName() == family && len(mf.GetMetric()) > 0 {
+				bs := []float64{}
+				for _, b := range mf.GetMetric()[0].GetHistogram().GetBucket() {
+					bs = append(bs, b.GetUpperBound())
+				}
+				return bs
+			}
+		}
+		return nil
+	}
+	regB := prometheus.NewRegistry()
+	bb := metrics.NewPrometheusMetricsBuilder(regB, "b", "")
+	bb.PublishBuckets = []float64{0.25, 4}
+	bb.HandlerBuckets = []float64{0.5, 2, 8}
+	pb, _ := bb.DecoratePublisher(&c20Pub{onPub: func(int, string, []*message.Message) error { return nil }})
+	pb.Publish("t", message.NewMessage("u", nil))
+	bb.NewRouterMiddleware().Middleware(func(*message.Message) ([]*message.Message, error) { return nil, nil })(message.NewMessage("u", nil))
+	eqF := func(a, b []float64) bool {
+		if len(a) != len(b) {
+			return false
+		}
+		for i := range a {
+			if a[i] != b[i] {
+				return false
+			}
+		}
+		return true
+	}
+	res["PublishBuckets and HandlerBuckets are the bucket bounds of the two histograms"] =
+		eqF(bounds(regB, "b_publish_time_seconds"), []float64{0.25, 4}) && eqF(bounds(regB, "b_handler_execution_time_seconds"), []float64{0.5, 2, 8})
+	regD := prometheus.NewRegistry()
+	metrics.NewPrometheusMetricsBuilder(regD, "d", "").NewRouterMiddleware().Middleware(func(*message.Message) ([]*message.Message, error) { return nil, nil })(message.NewMessage("u", nil))
+	res["nil HandlerBuckets give the 11 default handler buckets 0.0005 .. 1"] =
+		eqF(bounds(regD, "d_handler_execution_time_seconds"), []float64{0.0005, 0.001, 0.0025, 0.005, 0.01, 0.025, 0.05, 0.1, 0.25, 0.5, 1})
+	// a nil message from the wrapped subscriber: forwarded unchanged by the transform decorator (the transform
+	// sees it) and by the metrics decorator (recordMetrics guards it), nothing recorded, no panic
+	regN := prometheus.NewRegistry()
+	innerN := newC20Sub()
+	sawNil := false
+	tN, _ := message.MessageTransformSubscriberDecorator(func(m *message.Message) { sawNil = sawNil || m == nil })(innerN)
+	decN, _ := metrics.NewPrometheusMetricsBuilder(regN, "n", "").DecorateSubscriber(tN)
+	okNil := false
+	if chN, err := decN.Subscribe(context.Background(), "t"); err == nil {
+		go innerN.emit(nil, 10*time.Second)
+		select {
+		case got, open := <-chN:
+			tabN, _ := c20Gather(regN, "n_subscriber_messages_received_total", []string{"acked"})
+			okNil = open && got == nil && sawNil && c20Total(tabN) == 0
+		case <-time.After(15 * time.Second):
+		}
+		decN.Close()
+	}
+	res["a nil message passes the transform and the metrics subscriber decorators unchanged and unrecorded"] = okNil
 	return res
 }
 
